@@ -239,10 +239,28 @@ func (d *Dev) writeLocked(p []byte, off int64) {
 		if k > len(p)-done {
 			k = len(p) - done
 		}
-		pg := d.page(pi, true)
+		pg := d.page(pi, false)
+		if pg == nil && d.isBackground(p[done:done+k], o) {
+			done += k // writing what is already there: keep the device sparse
+			continue
+		}
+		pg = d.page(pi, true)
 		copy(pg[po:po+k], p[done:done+k])
 		done += k
 	}
+}
+
+func (d *Dev) isBackground(b []byte, off int64) bool {
+	for i, x := range b {
+		var want byte
+		if d.Pattern {
+			want = PatByte(off + int64(i))
+		}
+		if x != want {
+			return false
+		}
+	}
+	return true
 }
 
 func (d *Dev) Sync() error {
